@@ -24,6 +24,8 @@ import (
 	"testing"
 	"testing/synctest"
 	"time"
+
+	dtlsstate "github.com/pion/dtls/v3/internal/state"
 )
 
 type vfC17Case struct {
@@ -649,6 +651,21 @@ func vfC17Hostile(res *vfResult, c vfC17Case) {
 		return vfLegacyRecord(22, 0xfefd, 0, uint64(600000+i), nil, -1, vfHSFragment([]uint8{1, 16, 20, 11}[i%4], uint32(len(body)), uint16(60+i%200), 0, uint32(len(body)), body))
 	}})
 	if tkErr == nil && lastHS != nil {
+		if _, is13 := target.Conn.state.(*dtlsstate.State13); !is13 {
+			// the same from the authenticated peer: new DTLS 1.2 handshake messages under the session's keys (what a
+			// peer asking for a renegotiation sends) are not a retransmission of its last flight either
+			next := dtlsstate.HandshakeRecvSequence(target.Conn.state)
+			phases = append(phases, phase{"authentic-new-handshake-message", func(i int) []byte {
+				if i >= 40 {
+					return nil
+				}
+				body := vfRandBytes(r, 24)
+				ep, first := tk.reserve(peer.Name, 1)
+				b, _ := tk.Seal(peer.Name, ep, first, 22, vfHSFragment([]uint8{1, 0, 16, 11}[i%4], uint32(len(body)), uint16(next+i), 0, uint32(len(body)), body), r.Uint64())
+
+				return b
+			}})
+		}
 		phases = append(phases, phase{"genuine-retransmission", func(i int) []byte {
 			ep, first := tk.reserve(peer.Name, 1)
 			b, _ := tk.Seal(peer.Name, ep, first, 22, lastHS, r.Uint64())
@@ -700,6 +717,11 @@ func vfC17Hostile(res *vfResult, c vfC17Case) {
 			unparse := true
 			_ = unparse
 			res.Count("responses_to_garbage", int64(responses))
+		}
+		if ph.name == "authentic-new-handshake-message" && responses != 0 {
+			res.Violate(fmt.Sprintf("C17:final-flight-resent-for-new-message:%s:%s", vfVerClass(c.V), c.Target),
+				fmt.Sprintf("%s: 40 new, correctly protected handshake messages (fresh message numbers, no retransmission of anything) drew %d datagrams from the completed endpoint", c.String(), responses),
+				map[string]any{"case": c.String()})
 		}
 		if ph.name == "forged-new-handshake-message" && responses != 0 {
 			res.Violate(fmt.Sprintf("C17:final-flight-resent-without-peer-retransmission:%s:%s", vfVerClass(c.V), c.Target),
